@@ -5,6 +5,7 @@ MC = {"quick": [("mc-time", "MCLdapConn", "MCConn_c12_quick.cfg", 600, 8)],
       "thorough": [("mc-time", "MCLdapConn", "MCConn_c12_thorough.cfg", 3000, 12)]}
 PROFILES = {"quick": [("timeouts", 250), ("burst", 150)],
             "thorough": [("timeouts", 4000), ("burst", 2000), ("mixed", 2000)]}
+SCRIPTS = {"quick": ("GenConn_len4.cfg", 8), "thorough": ("GenConn_len5.cfg", 10)}
 RULE = ("model: explicit clock; TimeoutExact (nobody waits past its deadline, a timer fires only at its deadline), the timer of a "
         "search restarts with every received item, timeouts do not change the driver; implementation: paused Tokio clock advanced "
         "1 ms at a time, timeouts of 1-4 ms, responses before/at/after the deadline, late replies always sent afterwards and later "
@@ -12,8 +13,7 @@ RULE = ("model: explicit clock; TimeoutExact (nobody waits past its deadline, a 
 
 
 def run(tier):
-    return L.run_lane("C12", tier, MC[tier], PROFILES[tier], RULE,
-                      [("drop-tick", L.corrupt_time, "time")])
+    return L.run_lane("C12", tier, MC[tier], PROFILES[tier], RULE, scripts=SCRIPTS[tier], selftests=[("drop-tick", L.corrupt_time, "time")])
 
 
 def replay(path):
